@@ -15,6 +15,8 @@ T2  it is accumulated in ascending order of the values themselves (gather by arg
     permutation): the discarded set is a set of smallest values also across charge sectors;
 T3  the comparison is strict (`> tol`): an index whose cumulative weight equals the tolerance is still discarded
     (maximality) and zero singular values are dropped at tol = 0 (positivity);
+T5  the weights sum to one: the entries are s^p / sum(s^p) (squares over the squared 2-norm), so the tolerance is a
+    fraction of the total weight;
 T4  every caller hands over the singular values themselves (power 1), as they come out of the SVD.
 """
 import ast
@@ -74,7 +76,91 @@ class Interp:
             return None if c is None else -c
         return None
 
+    # -- normalisation tracking (T5) ---------------------------------------------------------------------------
+    # a scalar may be known as an aggregate (sum_i s_i^a)^b of the raw values: agg = (a, b); a vector as s^pw divided by
+    # such an aggregate: den = None (nothing divided), (a, c) for s^pw / (sum s^a)^c, or 'mixed' (anything else).
+    @staticmethod
+    def _scale(d, k):
+        return (d[0], d[1] * k) if isinstance(d, tuple) else d
+
+    @staticmethod
+    def _combine(den, agg, sg):
+        """vector with denominator `den` multiplied (sg=+1) or divided (sg=-1) by a scalar known as `agg`"""
+        if not isinstance(agg, tuple) or den == 'mixed':
+            return 'mixed'
+        a, b = agg
+        if den is None:
+            return (a, -sg * b)
+        if abs(den[0] - a) > 1e-9:
+            return 'mixed'
+        c = den[1] - sg * b
+        return None if abs(c) < 1e-9 else (a, c)
+
     def ev(self, e):
+        r = self._ev(e)
+        if isinstance(e, ast.Name) or not isinstance(r, (Vec, Sca)):
+            return r
+        if hasattr(r, 'norm_done'):
+            return r
+        r.norm_done = True
+        r.den = None if isinstance(r, Vec) else None
+        r.agg = None
+        sub = lambda x: self._ev(x) if not isinstance(x, ast.Name) else self.env.get(x.id)
+        gd = lambda v: getattr(v, 'den', 'mixed') if isinstance(v, Vec) else 'mixed'
+        ga = lambda v: getattr(v, 'agg', None) if isinstance(v, Sca) else None
+        if isinstance(e, ast.BinOp):
+            l, rr = self.ev(e.left), self.ev(e.right)
+            if isinstance(e.op, ast.Pow):
+                k = self.const(e.right)
+                if isinstance(r, Vec):
+                    r.den = self._scale(gd(l), k)
+                elif k is not None:
+                    r.agg = self._scale(ga(l), k)
+            elif isinstance(e.op, (ast.Div, ast.Mult)):
+                sg = 1 if isinstance(e.op, ast.Mult) else -1
+                if isinstance(r, Vec):
+                    if isinstance(l, Vec) and isinstance(rr, Sca):
+                        r.den = self._combine(gd(l), ga(rr), sg)
+                    elif isinstance(l, Sca) and isinstance(rr, Vec):
+                        r.den = self._combine(gd(rr), ga(l), sg)
+                    else:
+                        r.den = 'mixed' if (gd(l) is not None or gd(rr) is not None) else None
+                else:
+                    al, ar = ga(l), ga(rr)
+                    if isinstance(al, tuple) and isinstance(ar, tuple) and abs(al[0] - ar[0]) < 1e-9:
+                        r.agg = (al[0], al[1] + sg * ar[1])
+        elif isinstance(e, ast.Subscript):
+            b = self.ev(e.value)
+            if isinstance(r, Vec):
+                r.den = gd(b)
+        elif isinstance(e, ast.Call):
+            f = norm(e.func)
+            a = list(e.args)
+            if isinstance(e.func, ast.Attribute) and not a and norm(e.func.value) not in ('np', 'numpy'):
+                f, a = 'np.' + e.func.attr, [e.func.value]
+            v = self.ev(a[0]) if a else None
+            if isinstance(r, Sca):
+                if isinstance(v, Vec) and gd(v) is None and not v.acc:
+                    if f in ('np.linalg.norm', 'numpy.linalg.norm'):
+                        r.agg = (2 * v.pw, 0.5)
+                    elif f in ('np.sum', 'sum'):
+                        r.agg = (v.pw, 1)
+                    elif f in ('np.dot', 'np.vdot', 'np.inner'):
+                        r.agg = (2 * v.pw, 1)
+                elif isinstance(v, Sca) and f == 'np.sqrt':
+                    r.agg = self._scale(ga(v), 0.5)
+            else:
+                if f in ('np.empty_like', 'np.zeros_like', 'np.empty', 'np.zeros'):
+                    r.den = None
+                elif f == 'np.sqrt':
+                    r.den = self._scale(gd(v), 0.5)
+                elif f == 'np.square':
+                    r.den = self._scale(gd(v), 2)
+                else:
+                    r.den = gd(v)
+        return r
+
+    def _ev(self, e):
         if isinstance(e, ast.Name):
             return self.env.get(e.id, Unknown(f'`{e.id}` is not defined by a recognised statement'))
         c = self.const(e)
@@ -204,7 +290,9 @@ class Interp:
     def run(self, tolname):
         fn = self.fi.node
         vec = self.fi.params[0]
-        self.env[vec] = Vec(1, 1, None, self.fresh())
+        v0 = Vec(1, 1, None, self.fresh())
+        v0.den, v0.norm_done = None, True
+        self.env[vec] = v0
         self.tol = tolname
         self.ret = None
         self.rets = []
@@ -264,7 +352,9 @@ class Interp:
                         # length (a permutation fills every slot): entry i holds the accumulated weight up to entry i
                         src = base.ver if not hasattr(base, 'blank_like') else (g[1] if g is not None else None)
                         asc = g is not None and g[0].ver == src and p.ver == src and p.asc
-                        self.env[t.value.id] = Vec(v.deg, v.pw, 'asc' if asc else 'other', self.fresh())
+                        nv = Vec(v.deg, v.pw, 'asc' if asc else 'other', self.fresh())
+                        nv.den, nv.norm_done = getattr(v, 'den', 'mixed'), True
+                        self.env[t.value.id] = nv
                         continue
                     self.env[t.value.id] = Unknown(f'store `{norm(s)[:50]}` not recognised')
                     continue
@@ -348,7 +438,14 @@ def rule(chk, repo, rid):
            'scatter by the same permutation)', isv and v.acc == 'asc', f'`{norm(wexpr)}` is {v}', key=f'{rid}|T2')
     chk.ob(rid, w, 'T3: the comparison with the tolerance is strict (cumulative weight > tol is kept)', op is ast.Gt,
            f'`{norm(cmp_)}`', key=f'{rid}|T3')
-    n += 3
+    den = getattr(v, 'den', 'mixed') if isv else 'mixed'
+    unit = isinstance(den, tuple) and abs(den[0] - v.pw) < 1e-9 and abs(den[1] - 1) < 1e-9
+    chk.ob(rid, w, 'T5: the weights sum to one (values to the power p divided by the sum of the p-th powers, e.g. squares '
+           'over the squared 2-norm), so that tol bounds the discarded fraction of the total weight', unit,
+           f'`{norm(wexpr)}` is s^{v.pw if isv else "?"} divided by ' +
+           (f'(sum s^{den[0]})^{den[1]}' if isinstance(den, tuple) else 'nothing' if den is None else 'an unrecognised factor'),
+           key=f'{rid}|T5')
+    n += 4
     # T4: call sites
     sites = 0
     for q, cfi in sorted(repo.funcs.items()):
